@@ -14,12 +14,18 @@ pub async fn save_dict(path: impl AsRef<Path>, dict: impl Dictionary) -> Result<
         fs::create_dir_all(parent).await?;
     }
 
+    // A dictionary kept under version control is often a symbolic link: update the file it
+    // points to rather than replacing the link.
+    let destination = fs::canonicalize(path.as_ref())
+        .await
+        .unwrap_or_else(|_| path.as_ref().to_path_buf());
+
     // Write the new contents next to the destination and move them into place: if the process
     // dies mid-save, the previous dictionary is still intact (truncating the destination first
     // would lose every word).
     static SAVE_COUNTER: AtomicU64 = AtomicU64::new(0);
 
-    let mut temp_name = path.as_ref().as_os_str().to_owned();
+    let mut temp_name = destination.as_os_str().to_owned();
     temp_name.push(format!(
         ".{}-{}.tmp",
         std::process::id(),
@@ -27,14 +33,24 @@ pub async fn save_dict(path: impl AsRef<Path>, dict: impl Dictionary) -> Result<
     ));
     let temp_path = PathBuf::from(temp_name);
 
-    let file = File::create(&temp_path).await?;
-    let mut write = BufWriter::new(file);
+    let written = async {
+        let file = File::create(&temp_path).await?;
+        let mut write = BufWriter::new(file);
 
-    write_word_list(dict, &mut write).await?;
-    write.flush().await?;
-    drop(write);
+        write_word_list(dict, &mut write).await?;
+        write.flush().await?;
+        drop(write);
 
-    fs::rename(&temp_path, path.as_ref()).await?;
+        fs::rename(&temp_path, &destination).await
+    }
+    .await;
+
+    if written.is_err() {
+        // Do not leave half a dictionary lying around.
+        let _ = fs::remove_file(&temp_path).await;
+    }
+
+    written?;
 
     Ok(())
 }
